@@ -492,11 +492,11 @@ def rule_Q(ctx):
     stores = 'super(priority_dict, self).__setitem__(%s, %s)' % (key, val) in txt or 'super().__setitem__(%s, %s)' % (key, val) in txt
     push = [n for n in ast.walk(si.node) if isinstance(n, ast.Call) and 'heappush' in unparse(n.func)]
     okp = len(push) == 1 and len(push[0].args) == 2 and unparse(push[0].args[1]) == '(%s, %s)' % (val, key)
-    ctx.check(stores and okp, 'C06.Q', si, '__setitem__ stores the priority and pushes (priority, key) on the heap',
+    ctx.recognise(stores and okp, 'C06.Q', si, '__setitem__ stores the priority and pushes (priority, key) on the heap',
               witness={'push': unparse(push[0]) if push else None, 'dict store': stores}, node=si.node, key='setitem')
     # _rebuild_heap: (v, k) for k, v in items, heapified
     t = unparse(rb.node)
-    ctx.check('[(v, k) for k, v in self.items()]' in t.replace('(v, k) for (k, v)', '(v, k) for k, v') and 'heapify(self._heap)' in t,
+    ctx.recognise('[(v, k) for k, v in self.items()]' in t.replace('(v, k) for (k, v)', '(v, k) for k, v') and 'heapify(self._heap)' in t,
               'C06.Q', rb, '_rebuild_heap rebuilds (priority, key) pairs of all items and heapifies them',
               witness={'body': t[:200]}, node=rb.node, key='rebuild')
 
@@ -596,7 +596,7 @@ def rule_A(ctx):
               witness={'call': unparse(calls[0]) if calls else None}, node=p.node, key='prepare')
     ps = ctx.prog.func(NET + '.prepared_shortest_distance')
     t = unparse(ps.node)
-    ctx.check('key = (source, target)' in t and 'return self.DISTANCES[key]' in t, 'C06.A', ps,
+    ctx.recognise('key = (source, target)' in t and 'return self.DISTANCES[key]' in t, 'C06.A', ps,
               'prepared distances are looked up with the key order (source, target) used by the writer',
               witness={}, node=ps.node, key='lookup')
 
